@@ -163,6 +163,12 @@ fn run_plane(op: u8, a: u8, only: Option<u32>, ctx: &mut Ctx) -> Result<(), Viol
             setup.regs = Some(regs);
             let mut r = setup.build();
             if irq {
+                // past the reset sequence first (its end would take the interrupt), then the press
+                let mut k = 0;
+                while !r.is_instruction_done() && k < 20 {
+                    r.trigger_key_clock();
+                    k += 1;
+                }
                 let _ = r.raw_mut().bus_mut().write(0xF9, 1);
                 let _ = r.trigger_key_interrupt();
                 ctx.cov.probe("plane-with-interrupt-pending");
